@@ -613,6 +613,15 @@ def decide_one(p, a, seed, t0, vr, cr, seeds, kr, fails, maps, image, lookup, co
                 if any(d in failed_names.get(owner, ()) or d in failed_names.get(f['fn'], ()) for d in deps):
                     continue        # explained by a stronger clause of the same function
                 r = role_of(p, lab)
+                if owner != f['fn'] and f['fn']:
+                    # a callee's precondition failed at a call site: the calling function's own safety roles refine the
+                    # attribution (an unchecked read inside `reveal` is C13's and C02's, not C01's)
+                    cs = default_safety(f['fn'], contracts)
+                    if cs['props'] or cs['secondary']:
+                        if r == 'primary' and p != 'C02' and p not in cs['props'] and p in cs['secondary']:
+                            r = 'secondary'
+                        elif p in cs['props']:
+                            r = 'primary'
                 if r == 'primary' or (r == 'secondary' and role is None):
                     role = r
         elif f['fn']:
